@@ -16,6 +16,7 @@ A model / implementation difference that breaks none of these is a broken tie (`
 import asyncio
 import inspect
 
+import c14_conn as CN
 import c14_fuzz as F
 import secsm
 from common import hx
@@ -571,6 +572,185 @@ class Runner:
 
 
 # ------------------------------------------------------------------------------------------------------------------
+# -- 6. whole connections -------------------------------------------------------------------------------------------------
+LOWER_HEX = set(b"0123456789abcdef")
+
+
+def odd_lines(rng, real):
+    """raw lines a client of the line protocol would not write: tolerated variants of a valid request and the kinds
+    that end the loop"""
+    good = rng.choice(["3e00", "1001", "22f186", "3e80", "2701", rbytes(rng, 1, 6).hex()])
+    return rng.choice([
+        good.upper().encode(), good.encode() + b"\r", b"  " + good.encode() + b"\t ", b"\x1c" + good.encode() + b"\x1f",
+        b"", b" ", b"\r", b"\x0b\x0c", good.encode()[:-1], good.encode() + b"0", b"zz", good.encode() + b"g",
+        good[:2].encode() + b" " + good[2:].encode(), b"\xff" + good.encode(), good.encode() + b"\xc2\xa0", b"0x" + good.encode(),
+    ])
+
+
+def conn_script(rng, real, makers, names, n, mixed):
+    items, state = [], INIT
+    while len(items) < n:
+        new, _ = random_items(rng, real, makers, names, state)
+        for it in new:
+            it["dur"] = rng.choice([0] * 12 + [1, 2, 3, 38, 41])
+        items += new
+        if mixed and rng.random() < 0.06:
+            items.append({"adv": adv_of(rng), "dur": rng.choice([0, 1]), "line": odd_lines(rng, real).hex()})
+    return items
+
+
+def conn_clauses(o, requests_only):
+    """the property's own clauses on one exchange of a connection, judged on the real run alone"""
+    out = []
+    if "line" in o["item"]:
+        return out
+    nonempty = o["pdu"] is not None and len(o["pdu"]) > 0
+    if not nonempty or not requests_only:
+        return out
+    if not o["alive"]:
+        out.append(("dropped-connection", o["end"]))
+        return out
+    if not o["session_ok"]:
+        out.append(("left-sessions", "session-not-offered"))
+    w = o["written"]
+    if w:
+        if not (w.endswith(b"\n") and w.count(b"\n") == 1 and set(w[:-1]) <= LOWER_HEX and len(w) % 2 == 1 and len(w) > 1):
+            out.append(("reply-line-malformed", "line"))
+        elif o["verdict"] != "accepted":
+            out.append(("client-refuses", o["verdict"]))
+        elif o["resp_pdu"] is not None and o["resp_pdu"].hex().encode() + b"\n" != w:
+            out.append(("client-got-other-bytes", "bytes"))
+    elif o["verdict"] != "timeout":
+        out.append(("answer-from-nowhere", o["verdict"]))
+    if o["rbuf"] or o["sbuf"]:
+        out.append(("stale-bytes-left", "rbuf" if o["rbuf"] else "sbuf"))
+    return out
+
+
+def conn_compare(ctx, real, script):
+    """-> (index of the first event where something is wrong | None, signature, spec_violated, impl, model, obs, end)"""
+    obs, end = CN.drive(real, script)
+    out = ctx.lean(CN.lean_lines(real, obs))
+    requests_only = all("line" not in it for it in script)
+    for i, (o, mo) in enumerate(zip(obs, out[2:])):
+        broken = conn_clauses(o, requests_only)
+        if broken:
+            return i, ("clause", broken[0][0], broken[0][1]), True, o["impl"], CN.model_view(o, mo), obs, end
+        if o["orc_problems"]:
+            return i, ("draws", "unmodelled"), False, "; ".join(o["orc_problems"]), "-", obs, end
+        mv = CN.model_view(o, mo)
+        if mv != o["impl"]:
+            return i, ("differs", diff_field(o["impl"], mv)), False, o["impl"], mv, obs, end
+    mend = " ".join(p for p in out[-1].split(" ") if not p.startswith("served="))
+    if requests_only and obs and end["epilogue"] != "ok" and all(o["alive"] for o in obs):
+        return len(obs), ("clause", "epilogue-raises", end["epilogue"]), True, end["impl"], mend, obs, end
+    if mend != end["impl"]:
+        return len(obs), ("differs", "end:" + diff_field(end["impl"], mend)), False, end["impl"], mend, obs, end
+    return None, None, False, "", "", obs, end
+
+
+def diff_field(a, b):
+    fa, fb = a.split(" "), b.split(" ")
+    for x, y in zip(fa, fb):
+        if x != y:
+            return x.split("=")[0]
+    return "length"
+
+
+def conn_minimise(ctx, real, script, idx, sig, budget=40):
+    script = script[: idx + 1]
+    i = len(script) - 2
+    while i >= 0 and budget > 0:
+        cand = script[:i] + script[i + 1:]
+        budget -= 1
+        try:
+            j, s2, *_ = conn_compare(ctx, real, cand)
+        except Exception:  # noqa: BLE001
+            j, s2 = None, None
+        if j is not None and s2 == sig:
+            script = cand[: j + 1] if j < len(cand) else cand
+        i -= 1
+        i = min(i, len(script) - 2)
+    return script
+
+
+def conn_label(script, idx):
+    it = script[min(idx, len(script) - 1)] if script else {}
+    if "line" in it:
+        return "line:" + it["line"][:16]
+    if "key" in it:
+        return "key:" + ":".join(str(x) for x in it["key"])
+    return "pdu:" + it.get("pdu", "")[:16]
+
+
+def run_connections(ctx, rn, reals, names):
+    rng = ctx.rng
+    n_models = ctx.pick(5, 30)
+    for real in reals[:n_models]:
+        makers = ctor_makers(rng, real)
+        plans = [(ctx.pick(40, 150), False)] * ctx.pick(2, 5) + [(ctx.pick(25, 60), True)] * ctx.pick(6, 20)
+        plans += [(0, False), (1, False)]
+        for n, mixed in plans:
+            script = conn_script(rng, real, makers, names, n, mixed)
+            if n == 0 and rng.random() < 0.5:
+                script = [{"adv": 1, "dur": 0, "line": odd_lines(rng, real).hex()}]
+            try:
+                idx, sig, spec, impl, model, obs, end = conn_compare(ctx, real, script)
+            except Exception as e:  # noqa: BLE001
+                ctx.disagree(f"c14:conn:harness-raised:{type(e).__name__}", f"driving a whole connection raised {e!r}",
+                             {"kind": "conn", **rn.case_of(real, [])}, spec_violated=False, site="harness/c14_conn.py")
+                continue
+            ctx.ev(len(obs) + 1)
+            ctx.traces_validated += 1
+            for o in obs:
+                ctx.kind("conn:" + ("line" if "line" in o["item"] else "request") + ":" + (o["verdict"] if o["alive"] else "ended-" + o["end"]))
+                ctx.nontrivial(("conn", real.seed, o["op"], o["state"], o["start"], o["orc"]))
+            ctx.kind("conn:end:" + end["impl"].replace("alive=0 ", ""))
+            if idx is None:
+                continue
+            mini = conn_minimise(ctx, real, script, idx, sig)
+            try:
+                idx2, sig2, spec2, impl2, model2, obs2, _end2 = conn_compare(ctx, real, mini)
+            except Exception:  # noqa: BLE001
+                idx2 = None
+            if idx2 is None or sig2 != sig:
+                mini, idx2, impl2, model2 = script[: idx + 1], idx, impl, model
+            key = "c14:conn:" + ":".join(str(x) for x in sig) + ":" + conn_label(mini, idx2)
+            case = {"kind": "conn", "seed": real.seed, "params": params_json(real.params), "model": real.spec[:2000], "script": mini}
+            if spec:
+                what = (f"whole connection to the virtual ECU (seed {real.seed}), {len(mini)} event(s), the last one {conn_label(mini, idx2)}: "
+                        f"{sig[1]} ({sig[2]}) - the property's clause fails on TCPUDSServerTransport.handle_client with the real client")
+            else:
+                what = (f"whole connection to the virtual ECU (seed {real.seed}): handle_client / the client and Model/VEcuConn.lean differ "
+                        f"in {sig[1]} at event {idx2} ({conn_label(mini, idx2)})")
+            ctx.disagree(key, what[:900], case, impl=impl2, model=model2, spec_violated=spec,
+                         site="TCPUDSServerTransport.handle_client + LinesTransportMixin + UDSClient.request_unsafe vs Model/VEcuConn.lean")
+    ctx.exhaustive_parts.append("whole connections (real handle_client, real TCPLinesTransport + UDSClient.request_unsafe on the other end, "
+                                "virtual time): per exchange the line written, the client's verdict, session / security state, "
+                                "last_time_active, loop alive, both stream buffers; at the end the peer closes (epilogue observed); "
+                                "16 kinds of foreign lines (case, surrounding whitespace, empty, odd length, non-hex, non-ASCII)")
+
+
+def replay_conn(ctx, c):
+    env = F.make_env(0)
+    real = F.Real(env, c["seed"], params_from_json(env, c.get("params", {})))
+    script = c.get("script", [])
+    idx, sig, spec, impl, model, obs, end = conn_compare(ctx, real, script)
+    out = ctx.lean(CN.lean_lines(real, obs))
+    for i, (o, mo) in enumerate(zip(obs, out[2:])):
+        print(f"event {i}: {o['op']} start={o['start']} stop={o['stop']} oracle [{o['orc'][:80]}]")
+        print(f"   implementation: {o['impl'][:300]}")
+        print(f"   model         : {CN.model_view(o, mo)[:300]}")
+        if i == idx:
+            print(f"   {'VIOLATES ' + sig[1] if spec else 'DIFFERS'} {sig}")
+    print("peer closes   :", end["impl"])
+    print("model         :", out[-1])
+    if idx is not None and idx >= len(obs):
+        print(f"   {'VIOLATES ' + sig[1] if spec else 'DIFFERS'} {sig}")
+    print("DISAGREE" if idx is not None else "agree")
+    return idx is not None
+
+
 def run(ctx):
     # the session / security state machine over whole histories, exhaustively over a small alphabet of request kinds, with
     # both clock reads of handle_request (harness/secsm.py); first, because it installs its own clock and the main part
@@ -788,6 +968,8 @@ def _run(ctx, env, rn):
                          f"during a history that handle_request survives: {impl}", rn.case_of(real, items), impl=impl,
                          model="connection stays open", spec_violated=True, site="TCPUDSServerTransport.handle_client")
     rn.flush()
+    # 6. whole connections with the real client on the other end against Model/VEcuConn.lean
+    run_connections(ctx, rn, reals, names)
     if reals:
         ctx.sample({"model": reals[0].spec[:300], "example": "sreq 1 none none 1 22f190 1 0 3 aabb 0 -"})
 
@@ -796,6 +978,8 @@ def replay(ctx, case):
     c = case.get("case", case)
     if c.get("kind") == "history":
         return secsm.replay(ctx, c, "c14")
+    if c.get("kind") == "conn":
+        return replay_conn(ctx, c)
     env = F.make_env(0)
     real = F.Real(env, c["seed"], params_from_json(env, c.get("params", {})))
     items = c.get("history", [])
